@@ -301,6 +301,172 @@ def pl_vs_user_ctx(rng, n):
     return b
 
 
+
+# ------------------------------------------------------------------ added in session 3
+def pl_shared_coerce(rng, n):
+    """ONE polars schema whose columns carry coerce=True themselves (no
+    frame-level coerce): a thread inside a column's component checks must not
+    change what another thread's frame-level coercion sees."""
+    import pandera.polars as pap
+    regex = rng.random() < 0.3
+    cols = {"a": pap.Column(pl.Int64, pap.Check.gt(0), coerce=True),
+            "b": pap.Column(pl.Float64, pap.Check.in_range(0, 10), coerce=True),
+            "c": pap.Column(pl.String, nullable=rng.random() < 0.5)}
+    if regex:
+        cols["^r_.*$"] = pap.Column(pl.Int64, pap.Check.ge(0), coerce=True,
+                                    regex=True, required=False)
+    s = pap.DataFrameSchema(cols, strict=rng.choice([False, False, True]))
+    rows = rng.randint(2, 5)
+    data = {"a": [str(i + 1) for i in range(rows)],
+            "b": [f"{i}.5" for i in range(rows)], "c": ["x"] * rows}
+    if regex:
+        data["r_1"] = [str(i) for i in range(rows)]
+    good = pl.DataFrame(data)
+    how = rng.choice(["check", "coerce", "typed"])
+    bd = {k: list(v) for k, v in data.items()}
+    if how == "check":
+        bd["a"][rng.randrange(rows)] = "-4"
+    elif how == "coerce":
+        bd["b"][rng.randrange(rows)] = "zz"
+    else:
+        bd["a"] = [-(i + 1) for i in range(rows)]       # typed, failing check
+    bad = pl.DataFrame(bd)
+    b = Built()
+    b.schemas["P"] = s
+    b.add("P.validate(DataFrame good, needs casts)", _v(s, good))
+    b.add(f"P.validate(DataFrame bad:{how})", _v(s, bad, lazy=rng.random() < 0.5))
+    if n == 3:
+        b.add("P.validate(LazyFrame good, needs casts)", _v(s, good.lazy()))
+    return b
+
+
+def pd_shared_multiindex(rng, n):
+    """ONE pandas schema with a MultiIndex whose levels carry coerce=True and
+    checks: the MultiIndex backend validates a coercion-disabled copy of the
+    index schema; the levels themselves are shared by all threads."""
+    import pandera as pa
+    mi = pa.MultiIndex([
+        pa.Index(int, pa.Check.ge(0), name="i", coerce=True),
+        pa.Index(str, pa.Check.isin(["x", "y", "z"]), name="k",
+                 coerce=rng.random() < 0.5)],
+        coerce=rng.random() < 0.3, strict=rng.random() < 0.3)
+    s = pa.DataFrameSchema({"a": pa.Column(float, pa.Check.ge(0), coerce=True)},
+                           index=mi)
+    rows = rng.randint(2, 4)
+
+    def frame(i_vals, k_vals, a_vals):
+        return pd.DataFrame(
+            {"a": a_vals},
+            index=pd.MultiIndex.from_arrays([i_vals, k_vals], names=["i", "k"]))
+    good = frame([str(i) for i in range(rows)], ["x", "y", "z", "x"][:rows],
+                 [str(i) for i in range(rows)])
+    how = rng.choice(["level-check", "level-coerce", "column"])
+    if how == "level-check":
+        bad = frame([str(i) for i in range(rows)], ["q"] * rows,
+                    [str(i) for i in range(rows)])
+    elif how == "level-coerce":
+        bad = frame(["n"] + [str(i) for i in range(1, rows)],
+                    ["x"] * rows, [str(i) for i in range(rows)])
+    else:
+        bad = frame([str(i) for i in range(rows)], ["x"] * rows,
+                    ["-1"] + [str(i) for i in range(1, rows)])
+    b = Built()
+    b.schemas["S"] = s
+    b.add("S.validate(good, index needs casts)", _v(s, good))
+    b.add(f"S.validate(bad:{how})", _v(s, bad, lazy=rng.random() < 0.5))
+    if n == 3:
+        typed = frame(list(range(rows)), ["x"] * rows,
+                      [float(i) for i in range(rows)])
+        b.add("S.validate(good typed)", _v(s, typed))
+    return b
+
+
+def pd_shared_series_and_component(rng, n):
+    """ONE SeriesSchema with an index schema (both coercing) shared by the
+    threads, and ONE stand-alone regex Column validated directly."""
+    import pandera as pa
+    ss = pa.SeriesSchema(int, [pa.Check.ge(0), pa.Check.lt(50)], name="q",
+                         coerce=True,
+                         index=pa.Index(int, pa.Check.ge(0), coerce=True))
+    col = pa.Column(int, pa.Check.ge(0), name="^r_.*$", regex=True,
+                    coerce=rng.random() < 0.5)
+    rows = rng.randint(2, 4)
+    sg = pd.Series([str(i) for i in range(rows)], name="q",
+                   index=[str(i) for i in range(rows)])
+    sb = sg.copy()
+    if rng.random() < 0.5:
+        sb.iloc[0] = "-3"
+    else:
+        sb.index = ["-1"] + [str(i) for i in range(1, rows)]
+    dg = pd.DataFrame({"r_a": list(range(rows)), "r_b": list(range(rows)),
+                       "z": ["u"] * rows})
+    db = dg.copy()
+    db["r_b"] = [-1] + [1] * (rows - 1)
+    b = Built()
+    b.schemas.update({"SS": ss, "COL": col})
+    if rng.random() < 0.5:
+        b.add("SS.validate(good)", _v(ss, sg))
+        b.add("SS.validate(bad)", _v(ss, sb, lazy=rng.random() < 0.5))
+        if n == 3:
+            b.add("COL.validate(bad r_b)", _v(col, db, lazy=rng.random() < 0.5))
+    else:
+        b.add("COL.validate(good)", _v(col, dg))
+        b.add("COL.validate(bad r_b)", _v(col, db, lazy=rng.random() < 0.5))
+        if n == 3:
+            b.add("SS.validate(good)", _v(ss, sg))
+    return b
+
+
+def pd_shared_tz_agnostic(rng, n):
+    """ONE DateTime(time_zone_agnostic=True) dtype object shared by two
+    schemas / threads validating data of different time zones; plus a
+    drop_invalid_rows schema used lazily by several threads."""
+    import pandera as pa
+    from pandera.engines import pandas_engine as pe
+    dt = pe.DateTime(tz="UTC", time_zone_agnostic=True)
+    s = pa.DataFrameSchema(
+        {"t": pa.Column(dt), "v": pa.Column(int, pa.Check.ge(0))},
+        drop_invalid_rows=rng.random() < 0.5)
+    rows = rng.randint(2, 4)
+
+    def frame(tz, vals):
+        t = pd.date_range("2020-01-01", periods=rows, freq="h")
+        t = t.tz_localize(tz) if tz else t
+        return pd.DataFrame({"t": t, "v": vals})
+    tokyo = frame("Asia/Tokyo", list(range(rows)))
+    utc = frame("UTC", [-1] + list(range(1, rows)))
+    naive = frame(None, list(range(rows)))
+    b = Built()
+    b.schemas["S"] = s
+    b.add("S.validate(Tokyo good) lazy", _v(s, tokyo, lazy=True))
+    b.add("S.validate(UTC bad v) lazy", _v(s, utc, lazy=True))
+    if n == 3:
+        b.add("S.validate(naive) lazy", _v(s, naive, lazy=True))
+    return b
+
+
+def mixed_builtin_dispatch(rng, n):
+    """The same built-in checks used on pandas and on polars data at the same
+    time (the built-in check dispatchers are process-wide objects)."""
+    import pandera as pa
+    import pandera.polars as pap
+    rows = rng.randint(2, 4)
+    ps = pa.DataFrameSchema({"a": pa.Column(int, [pa.Check.gt(0), pa.Check.isin(
+        list(range(1, 50)))]), "s": pa.Column(str, pa.Check.str_startswith("x"))})
+    ls = pap.DataFrameSchema({"a": pap.Column(pl.Int64, [pap.Check.gt(0), pap.Check.isin(
+        list(range(1, 50)))]), "s": pap.Column(pl.String, pap.Check.str_startswith("x"))})
+    a_good, a_bad = list(range(1, rows + 1)), [-1] + list(range(1, rows))
+    sv = ["x%d" % i for i in range(rows)]
+    b = Built()
+    b.schemas.update({"D": ps, "P": ls})
+    b.add("D.validate(pandas good)", _v(ps, pd.DataFrame({"a": a_good, "s": sv})))
+    b.add("P.validate(polars bad)", _v(ls, pl.DataFrame({"a": a_bad, "s": sv}),
+                                       lazy=rng.random() < 0.5))
+    if n == 3:
+        b.add("D.validate(pandas bad)", _v(ps, pd.DataFrame(
+            {"a": a_bad, "s": ["y"] + sv[1:]}), lazy=True))
+    return b
+
 # ------------------------------------------------------------------ registries
 _MODEL_SEQ = [0]
 
@@ -408,6 +574,12 @@ SCENARIOS = {
     "model_first_use": (model_first_use, {"pandas_shared": True,
                                           "config": "if_polars"}),
     "registry_first_use": (registry_first_use, {"config": "if_polars"}),
+    "pl_shared_coerce": (pl_shared_coerce, {"config": True}),
+    "pd_shared_multiindex": (pd_shared_multiindex, {"pandas_shared": True}),
+    "pd_shared_series_and_component": (pd_shared_series_and_component,
+                                       {"pandas_shared": True}),
+    "pd_shared_tz_agnostic": (pd_shared_tz_agnostic, {"pandas_shared": True}),
+    "mixed_builtin_dispatch": (mixed_builtin_dispatch, {"config": True}),
 }
 ORDER = list(SCENARIOS)
 
